@@ -230,10 +230,8 @@ impl<F: Future> Stream for FuturesUnordered<F> {
                 Poll::Ready(Some(x)) => {
                     *rem -= 1;
                     // start the next poll at the following group, so that one busy group cannot
-                    // starve the others; an emptied group stays under the cursor to be removed
-                    if !groups[*poll_next].is_empty() {
-                        *poll_next += 1;
-                    }
+                    // starve the others
+                    *poll_next += 1;
                     return Poll::Ready(Some(x));
                 }
                 Poll::Ready(None) => {
@@ -259,7 +257,12 @@ impl<F: Future> Stream for FuturesUnordered<F> {
                 }
             }
         }
-        Poll::Pending
+        // every group has been polled; emptied groups may still be waiting for their removal
+        if *rem == 0 {
+            Poll::Ready(None)
+        } else {
+            Poll::Pending
+        }
     }
 
     fn size_hint(&self) -> (usize, Option<usize>) {
